@@ -199,6 +199,14 @@ def build(tier):
                 ["experiences", "noise_clip", "policy_noise"]),
                ("agilerl.algorithms.td3.TD3.learn", "TD3", "y_j = ", "y_j", {"rewards": elr, "dones": eld, "q_value_next_state": elq},
                 ["experiences", "noise_clip", "policy_noise"])]
+    ma = lambda term: (lambda ex, st, l: {"agent_x": El(term)})
+    ma_opaque = ["idx", "actor", "critic", "critic_target", "actor_optimizer", "critic_optimizer", "stacked_states", "stacked_actions",
+                 "stacked_next_states", "stacked_next_actions", "states", "actions"]
+    targets += [("agilerl.algorithms.maddpg.MADDPG._learn_individual", "MADDPG", "y_j = ", "y_j",
+                 {"rewards": ma(r), "dones": ma(d), "q_value_next_state": elq, "agent_id": (lambda ex, st, l: "agent_x")}, ma_opaque),
+                ("agilerl.algorithms.matd3.MATD3.learn_individual", "MATD3", "y_j = ", "y_j",
+                 {"rewards": ma(r), "dones": ma(d), "q_value_next_state": elq, "agent_id": (lambda ex, st, l: "agent_x")},
+                 ma_opaque + ["critic_1", "critic_2", "critic_target_1", "critic_target_2", "critic_1_optimizer", "critic_2_optimizer"])]
     for qual, cls, prefix, var, locs, opaque_params in targets:
         params = {"self": gself(cls)}
         params.update(locs)
@@ -244,6 +252,6 @@ def build(tier):
     P.syntactic.append(("learners.target-sources-and-updates", wiring))
     P.assumptions += ["A-REAL; done flags are 0/1", "Q_target is an arbitrary real (network outputs are free)",
                       "that the minimised quantity is the stated loss needs autograd semantics (trusted, DESIGN 6)"]
-    P.uncovered += ["MADDPG/MATD3 target expressions (only their soft_update loops are under contract)",
+    P.uncovered += ["where MADDPG/MATD3 take Q_target from (their target statements and soft_update loops are under contract, the source of q_value_next_state is not)",
                     "the loss value minimised by backward()/step() (autograd)", "float effects (0*inf)"]
     return P
